@@ -1,6 +1,7 @@
 package callsim
 
 import (
+	"encoding/binary"
 	"encoding/json"
 	"fmt"
 	"os"
@@ -25,11 +26,22 @@ func RaceRun(seed uint64, start, n int64, repo string, report func(string)) (wor
 
 // raceRun: worlds start, start+step, ... (n of them, or until stop() says so); after(i) is called after every world.
 func raceRun(seed uint64, start, n, step int64, repo string, stop func() bool, report func(i int64, l string), after func(i int64)) (worlds, calls int64) {
+	return raceRunJ(nil, seed, start, n, step, repo, stop, report, after)
+}
+
+// raceRunJ: as raceRun; when jf is set, the index of the world about to run is written to it first, so that the
+// driver can tell which world killed the process (Go aborts on e.g. concurrent map writes; that cannot be recovered).
+func raceRunJ(jf *os.File, seed uint64, start, n, step int64, repo string, stop func() bool, report func(i int64, l string), after func(i int64)) (worlds, calls int64) {
 	lib := newLibrary(repo)
 	rc := &refCache{m: map[uint64]*refResult{}}
 	for k, i := int64(0), start; k < n; k, i = k+1, i+step {
 		if stop != nil && stop() {
 			break
+		}
+		if jf != nil {
+			var b [8]byte
+			binary.LittleEndian.PutUint64(b[:], uint64(i))
+			jf.WriteAt(b[:], 0)
 		}
 		r := rng.New(rng.Mix(seed, 0x17, uint64(i)))
 		c := drawWorld17(r, lib)
@@ -196,7 +208,12 @@ func RaceWorker(cfg Config) *evid.Stats {
 		raw, _ := json.Marshal(&rcase)
 		st.Violations = append(st.Violations, evid.Violation{Property: "C17", Signature: sig, What: what, Case: raw})
 	}
-	worlds, calls := raceRun(cfg.Seed, int64(cfg.W), 1<<40, int64(cfg.NW), cfg.RepoDir,
+	var jf *os.File
+	if cfg.Journal != "" {
+		jf, _ = os.Create(cfg.Journal)
+	}
+	_ = jf
+	worlds, calls := raceRunJ(jf, cfg.Seed, int64(cfg.W), 1<<40, int64(cfg.NW), cfg.RepoDir,
 		func() bool { return time.Now().After(cfg.Deadline) || seen >= 3 },
 		func(i int64, l string) {
 			record(i, "free-running-result-differs", "under real (unscheduled) concurrency: "+l, "")
